@@ -898,13 +898,18 @@ Theorem C05_fault_closing2_delimited_arg_partial : forall cx path before ws name
 Proof. exact fault_closing2_brk. Qed.
 
 (** the machinery behind both: a parse error of the innermost collector propagates to the
-    outermost one — same position, same raise site — whatever follows *)
-Theorem C05_error_propagates2_partial : forall s cx path ps o st pos rest k e p,
+    outermost one — same position, same raise site — whatever follows.  Fuel: [U] units per
+    written character, for any [U >= 8] that exceeds the number of argument slots of every
+    specification of the context by four (the unit [fuel_unit cx = 8 + max_args cx] of the
+    model's own fuel is such a [U]: [C02_fuel_unit_ok]) *)
+Theorem C05_error_propagates2_partial : forall s cx U,
+  (8 <= U)%nat -> (max_args cx + 4 <= U)%nat ->
+  forall path ps o st pos rest k e p,
   StdE cx ps -> RoundTripRules.opts_ok ps o -> ok_lpath2 cx ps path rest = true ->
   skipn pos s = lp_text2 path ++ rest ->
   run s false cx k (TCollect (lp_state2 cx ps path) (lp_opts2 cx ps o path) (lp_st2 st path)
                              (pos + length (lp_text2 path))%nat) = PErr e p ->
-  exists e', run s false cx (k + 8 * length (lp_text2 path))%nat (TCollect ps o st pos) = PErr e' p
+  exists e', run s false cx (k + U * length (lp_text2 path))%nat (TCollect ps o st pos) = PErr e' p
              /\ pe_pos e' = pe_pos e /\ pe_what e' = pe_what e.
 Proof. exact lpath_err2. Qed.
 
